@@ -287,6 +287,18 @@ bool c02_func(hp_line *l)
 		const lzma_vli count = strtoull(l->tok[1], NULL, 10), ls = strtoull(l->tok[2], NULL, 10), bs = strtoull(l->tok[3], NULL, 10);
 		printf("%" PRIu64 " %" PRIu64 " %" PRIu64 "\n", index_size_unpadded(count, ls), index_size(count, ls), index_stream_size(bs, count, ls));
 
+	} else if (!strcmp(op, "buenc") && nt == 4) {
+		// buenc <check> <avail> <hex>: lzma_block_uncomp_encode into exactly <avail> bytes
+		size_t n; uint8_t *in = hp_hex(l->tok[3], &n);
+		const size_t avail = (size_t)hp_u64(l->tok[2]);
+		uint8_t *out = malloc(avail ? avail : 1);
+		size_t out_pos = 0;
+		lzma_block b = { .version = 0, .check = (lzma_check)hp_u64(l->tok[1]), .filters = NULL };
+		const lzma_ret r = lzma_block_uncomp_encode(&b, in, n, out, &out_pos, avail);
+		put_ret_hex(r, out, out_pos);
+		free(out);
+		free(in);
+
 	} else if (!strcmp(op, "bound") && nt == 2) {
 		const uint64_t n = strtoull(l->tok[1], NULL, 10);
 		printf("%" PRIu64 " %" PRIu64 " %zu %zu\n", lzma2_bound(n), lzma_block_buffer_bound64(n),
